@@ -43,10 +43,12 @@ var c26Assumptions = []string{
 	"while finding " + c26FindPrefixLower + " is listed open, a disagreement where dolt returns a subset of the reference rows for a query over a table with a prefix index and dolt's plan uses an index is attributed to it (counted as excluded_known); the pinned sub-test reports it",
 	"while finding " + c26FindPrefixOnPK + " is listed open, secondary indexes get no prefix length on primary-key columns (counted as excluded_known); the pinned sub-test reports it",
 	"a case in which the memory engine rejects an INSERT of distinct composite keys with 'duplicate primary key given' (dolt accepts it) is skipped (counted as excluded_known, class reference_rejected_insert)",
+	"UPDATE never assigns a column with a case/accent-insensitive collation (the memory engine keeps the old bytes when the new value is collation-equal, e.g. 'ä' -> 'A' under utf8mb4_general_ci; skipped assignments are counted as excluded_known)",
 	"a secondary index the memory engine fails to build is dropped from dolt as well (counted as excluded_known, class reference_rejected_index)",
 	"a query on which the reference engine's connection dies (the memory engine panicked) is skipped and counted as excluded_known (class reference_engine_crashed); when dolt's connection dies on the same query as well (a panic in go-mysql-server's shared analyzer, seen for `varbinarycol = x AND varbinarycol IN (...)`) both are reopened (class both_engines_crashed)",
 	"while finding " + c26FindPrefixOverlap + " is listed open, a disagreement (no LIMIT) where dolt returns exactly the reference rows but some of them several times, for a query over a table with a prefix index and an index scan in dolt's plan, is attributed to it (counted as excluded_known); the pinned sub-test reports it",
 	"while finding " + c26FindLeftMerge + " is listed open, a disagreement whose dolt plan contains a LeftOuterMergeJoin and where dolt returns no more rows than the reference is attributed to it (counted as excluded_known); the pinned sub-test reports it",
+	"while finding " + c26FindPrefixMB + " is listed open, a COUNT query over a table with a prefix index whose dolt plan uses an index and whose dolt count is smaller than the reference count is attributed to it; row-returning queries that lose rows the same way fall under the subset gate of " + c26FindPrefixLower + " (both counted as excluded_known); the pinned sub-test reports it",
 	"while finding " + c26FindKeylessCount + " is listed open, `SELECT COUNT(col) FROM <keyless table>` is not generated (counted as excluded_known); the pinned sub-test reports it",
 }
 
@@ -168,7 +170,7 @@ func (c *qCase) commit(madmin *qConn) {
 			c.rt.Fatalf("HARNESS: %v", err)
 		}
 		if !vsql.EqualStrings(snap.Sorted(), head.Sorted()) {
-			c.rt.Fatalf("HARNESS: row model of %s diverged from the reference head database:\nmodel %s\nhead  %s", t.Name, vsql.Show(snap.Sorted()), vsql.Show(head.Sorted()))
+			c.rt.Fatalf("HARNESS: row model of %s diverged from the reference head database:\nonly model %s\nonly head  %s\n--- script ---\n%s", t.Name, qOnly(snap, head), qOnly(head, snap), qClip(c.scriptText(), 6000))
 		}
 		c.memUse(cm.MemDB)
 	}
@@ -219,12 +221,21 @@ func (c *qCase) dml() {
 				if done[ci] {
 					continue
 				}
+				if t.Cols[ci].Kind.caseInsensitive() {
+					// memory-engine quirk: UPDATE to a collation-equal but byte-different value ('ä' ->
+					// 'A' under general_ci) is treated as "unchanged" and the old bytes are kept
+					c.rec.Excluded(1)
+					c.rec.Class("excluded:update_of_ci_column", 1)
+					continue
+				}
 				done[ci] = true
 				v := qGenVal(c.rt, &t.Cols[ci])
 				sets = append(sets, fmt.Sprintf("`%s` = %s", t.Cols[ci].Name, v))
 				row[ci] = v
 			}
-			c.both(fmt.Sprintf("UPDATE `%s` SET %s WHERE %s", t.Name, strings.Join(sets, ", "), t.pkWhere(row)))
+			if len(sets) > 0 {
+				c.both(fmt.Sprintf("UPDATE `%s` SET %s WHERE %s", t.Name, strings.Join(sets, ", "), t.pkWhere(row)))
+			}
 		}
 	}
 }
@@ -522,6 +533,32 @@ func c26PinnedLeftMerge(t *testing.T, srv *vsql.Server, admin *vsql.Session) str
 	return ""
 }
 
+// c26FindPrefixMB: a prefix index over a column with a case-insensitive collation loses rows whose
+// indexed prefix starts with a multi-byte character (`c = 'a'` misses 'á', `c <= 'z'` misses 'á',
+// 'ß'): the stored prefix does not compare like the full value under the collation.
+const c26FindPrefixMB = "C26-prefix-index-multibyte-collation"
+
+func c26PinnedPrefixMB(t *testing.T, srv *vsql.Server, admin *vsql.Session) string {
+	db := srv.NewDBName()
+	admin.MustExec(t, "CREATE DATABASE "+db)
+	defer admin.Exec("DROP DATABASE " + db)
+	s := srv.Session(t, "pinned", db)
+	defer s.Close()
+	s.MustExec(t, "CREATE TABLE t (k INT PRIMARY KEY, c VARCHAR(8) COLLATE utf8mb4_general_ci, KEY i (c(1), k))")
+	s.MustExec(t, "INSERT INTO t VALUES (1,'á'),(2,'a'),(3,'z'),(4,'ß'),(5,'ab')")
+	var bad []string
+	for _, p := range [][2]string{{"SELECT k FROM t WHERE c = 'a'", "(1) (2)"}, {"SELECT k FROM t WHERE c <= 'z'", "(1) (2) (3) (4) (5)"}} {
+		r := s.MustQuery(t, p[0])
+		if got := vsql.Show(r.Sorted()); got != p[1] {
+			bad = append(bad, fmt.Sprintf("%s returned %s want %s", p[0], got, p[1]))
+		}
+	}
+	if len(bad) > 0 {
+		return "t(k PK, c VARCHAR(8) COLLATE utf8mb4_general_ci, KEY (c(1), k)) = {(1,'á'),(2,'a'),(3,'z'),(4,'ß'),(5,'ab')}: " + strings.Join(bad, "; ")
+	}
+	return ""
+}
+
 // c26FindKeylessCount: on a keyless table `SELECT COUNT(col) FROM t` (count fast path of
 // kvexec/count_agg.go) tests the NULL-ness of the value field one position to the left of col
 // (keyless value tuples start with the cardinality field).
@@ -647,6 +684,19 @@ func (c *qCase) runQuery(q qQuery) {
 		mismatch = !vsql.EqualStrings(dr.Ordered(), mr.Ordered())
 	} else {
 		mismatch = !vsql.EqualStrings(dr.Sorted(), mr.Sorted())
+	}
+	if mismatch && q.has("prefix_index_table") && vh.OpenFinding("C26", c26FindPrefixMB) && len(dr.Data) == 1 && len(mr.Data) == 1 &&
+		(strings.HasPrefix(q.Form, "count") || q.Form == "joincount" || q.Form == "distinctcount") {
+		// a COUNT over rows the index scan lost
+		dp, _ := plan()
+		var dn, mn int
+		fmt.Sscan(dr.Data[0][0], &dn)
+		fmt.Sscan(mr.Data[0][0], &mn)
+		if strings.Contains(strings.Join(dp, "\n"), "IndexedTableAccess") && dn < mn {
+			c.rec.Excluded(1)
+			c.rec.Class("known:"+c26FindPrefixMB, 1)
+			return
+		}
 	}
 	if mismatch && q.has("prefix_index_table") && vh.OpenFinding("C26", c26FindPrefixLower) {
 		dp, _ := plan()
@@ -913,6 +963,16 @@ func TestVerif_C26(t *testing.T) {
 			t.Errorf("%s", msg)
 		}
 	})
+	t.Run("pinned_prefix_index_multibyte_collation", func(t *testing.T) {
+		if msg := c26PinnedPrefixMB(t, srv, admin); msg != "" {
+			if vh.OpenFinding("C26", c26FindPrefixMB) {
+				vh.ReportKnown("C26", c26FindPrefixMB, msg)
+				return
+			}
+			vh.NoteViolation(t.Name(), "", `{"sql":["CREATE TABLE t (k INT PRIMARY KEY, c VARCHAR(8) COLLATE utf8mb4_general_ci, KEY i (c(1), k))","INSERT INTO t VALUES (1,'á'),(2,'a'),(3,'z'),(4,'ß'),(5,'ab')","SELECT k FROM t WHERE c = 'a'","SELECT k FROM t WHERE c <= 'z'"],"observed":"`+strings.ReplaceAll(msg, `"`, `'`)+`"}`)
+			t.Errorf("%s", msg)
+		}
+	})
 	t.Run("pinned_valuerow_null_comparison", func(t *testing.T) {
 		if msg := c26PinnedValueRowNull(t, srv, admin); msg != "" {
 			if vh.OpenFinding("C26", c26FindValueRowNull) {
@@ -925,7 +985,7 @@ func TestVerif_C26(t *testing.T) {
 	})
 	maxRows := vh.N(120, 300)
 	nQueries := vh.N(45, 60)
-	vh.Check(t, "diff", 40, 150, func(rt *rapid.T) {
+	vh.Check(t, "diff", 40, 60, func(rt *rapid.T) {
 		db := srv.NewDBName()
 		admin.MustExec(rt, "CREATE DATABASE "+db)
 		defer admin.Exec("DROP DATABASE " + db)
